@@ -29,6 +29,11 @@ var c19Families = []c19Family{
 	{"arabic-persian", [][2]rune{{0x0600, 0x06FF}, {0x0750, 0x077F}, {0xFB50, 0xFBFF}, {0xFE70, 0xFEFF}},
 		[]rune{0x0640, 0x064B, 0x064E, 0x0651, 0x0652, 0x0670, 0x200C, 0x200D, 0x0654}},
 	{"indic", [][2]rune{{0x0900, 0x097F}, {0x0980, 0x09FF}, {0x0B80, 0x0BFF}}, []rune{0x093C, 0x093E, 0x0941, 0x094D, 0x0902, 0x200D, 0x200C}},
+	// symbols that fold or decompose into several characters (enclosed and parenthesised
+	// alphanumerics, number forms, letterlike symbols, super/subscripts, ligatures, fullwidth
+	// forms) among plain ASCII, so that nothing else in the text offers slack
+	{"symbols-among-ascii", [][2]rune{{0x2460, 0x24FF}, {0x0041, 0x007A}, {0x2150, 0x218F}, {0x2100, 0x214F}, {0x2070, 0x209F}, {0xFB00, 0xFB06}, {0xFF01, 0xFF5E}, {0x0030, 0x0039}, {0x3200, 0x32FF}, {0x1F100, 0x1F1FF}},
+		[]rune{0x20DD, 0xFE0F, '.', ')', 0x00B2}},
 	{"latin-greek-cyrillic", [][2]rune{{0x0041, 0x007A}, {0x00C0, 0x017F}, {0x0370, 0x03FF}, {0x0400, 0x04FF}, {0x1E00, 0x1EFF}, {0xFB00, 0xFB06}},
 		[]rune{0x0301, 0x0308, 0x0327, 0x0342, 0x0345, '\'', 0x2019, 0x02BC, '-', 0x00AD}},
 }
